@@ -81,6 +81,16 @@ def run(prog, fields=None, floor=8):
                         else:
                             res.inst("%s|%s|%s/returned-to/%s" % (f.norm, field, meth, cf.norm.split("::")[-1]), where="%s:%s" % (cf.file, ct.get("ln")), how="caller reads it")
                             res.oblige(True)
+                if used and dl != 0 and ret_slot is None and not meth.startswith("extend"):
+                    esc = _escapes_unconsumed(f, t)
+                    if esc is not None:
+                        key3 = "%s|%s|%s/not-on-every-path" % (f.norm, field, meth)
+                        res.inst(key3, where="%s:%s" % (f.file, t.get("ln")), how="a return is reachable with the evicted element unconsumed")
+                        res.oblige(False)
+                        res.viol(key3, "%s:%s" % (f.file, f.line_of(esc)),
+                                 "%s.%s evicts an element when the buffer is full; it is consumed on some paths, but the return at bb%d is "
+                                 "reachable from the `Some(evicted)` side without any use of the evicted element: on that path the evicted "
+                                 "event / macro / deferred release is lost (a key it was holding stays down)" % (field, meth, esc))
                 base = "%s|%s|%s" % (f.norm, field, meth)
                 ord_ = sum(1 for i in res.instances if i["key"].split("#")[0] == base)
                 key = base if ord_ == 0 else "%s#%d" % (base, ord_)
@@ -161,3 +171,60 @@ def _reads_field(g, dest, k):
         if t2["k"] == "switch" and hits(t2["d"]):
             return True
     return False
+
+
+def _escapes_unconsumed(f, t):
+    """The evicted Option is the call's destination. Returns a return block that is reachable from the `Some` side of the
+    eviction without passing through a block that uses the payload (call argument, store into memory or into the return
+    place), or None when every such path consumes it. Path rule: must-pass-through over the function's CFG."""
+    from kq.core import proj
+    dl = t["dest"]["l"]
+    derived = {dl}
+    changed = True
+    while changed:
+        changed = False
+        for bi, si, st in f.all_rvalues():
+            rv = st["rv"]
+            if rv["k"] == "discr" or proj(st["p"]) or st["p"]["l"] in derived or st["p"]["l"] == 0:
+                continue
+            ops = [o for o in rvalue_operands(rv) if is_place(o)]
+            if rv["k"] == "ref" and is_place(rv.get("p")):
+                ops.append(rv["p"])
+            if any(o["l"] in derived for o in ops):
+                derived.add(st["p"]["l"])
+                changed = True
+    consume = set()
+    discr_locals = {}
+    for b in f.reachable():
+        for st in f.stmts(b):
+            if st["k"] != "assign":
+                continue
+            rv = st["rv"]
+            if rv["k"] == "discr":
+                if is_place(rv.get("p")) and rv["p"]["l"] in derived:
+                    discr_locals[st["p"]["l"]] = b
+                continue
+            if (proj(st["p"]) or st["p"]["l"] == 0) and any(is_place(o) and o["l"] in derived for o in rvalue_operands(rv)):
+                consume.add(b)
+        t2 = f.term(b)
+        if t2["k"] == "call" and any(is_place(a) and a["l"] in derived for a in t2["args"]):
+            consume.add(b)
+    starts = []
+    for b in f.reachable():
+        t2 = f.term(b)
+        if t2["k"] == "switch" and is_place(t2["d"]) and t2["d"]["l"] in discr_locals:
+            some = [tb for v, tb in t2["ts"] if v == 1]
+            if some:
+                starts.extend(some)
+            elif any(v == 0 for v, tb in t2["ts"]):
+                starts.append(t2["o"])
+    if not starts:
+        starts = [t["t"]] if t.get("t") is not None else []
+    rets = set(f.return_blocks())
+    for s in starts:
+        if s in consume:
+            continue
+        hit = sorted(f.reach_from(s, avoid=consume) & rets)
+        if hit:
+            return hit[0]
+    return None
